@@ -381,3 +381,35 @@ func vh_real_types_attempts() {
 	}
 	vObserve("sends", vRealSends)
 }
+
+// ---- what a fresh Query / Batch starts from (also when the Query object is a recycled one) ----
+//
+// "A query not marked idempotent is never executed speculatively" and "sent once unless a policy says
+// otherwise" are statements about what the application asked for on THIS query: Session.Query hands out
+// pooled objects, so nothing a previous user of the object set (idempotence, speculative policy, retry
+// policy, paging state, bound connection ...) may survive into the next query; the defaults are the
+// session's.
+func vh_query_defaults() {
+	s := &Session{logger: vNopLogger{}}
+	s.cfg.DefaultIdempotence = vBool("default_idempotence")
+	var sessionRT RetryPolicy
+	if vBool("session_retry_policy") {
+		sessionRT = &SimpleRetryPolicy{NumRetries: 1}
+	}
+	s.cfg.RetryPolicy = sessionRT
+	s.pageSize = 100
+	q1 := s.Query("A", 1, 2)
+	q1.Idempotent(true).SetSpeculativeExecutionPolicy(&SimpleSpeculativeExecution{NumAttempts: 2}).RetryPolicy(&SimpleRetryPolicy{NumRetries: 9})
+	q1.PageState([]byte{1, 2}).PageSize(7).Consistency(All)
+	q1.conn = &Conn{}
+	q1.Release()
+	q2 := s.Query("B")
+	vAssert(q2.IsIdempotent() == s.cfg.DefaultIdempotence, "C13/defaults/idempotence-is-the-sessions-default-not-a-previous-querys")
+	vAssert(q2.speculativeExecutionPolicy() != nil && q2.speculativeExecutionPolicy().Attempts() == 0, "C13/defaults/not-speculative-unless-asked")
+	vAssert(q2.retryPolicy() == sessionRT, "C13/defaults/retry-policy-is-the-sessions")
+	vAssert(q2.Attempts() == 0, "C13/defaults/no-attempts-counted-yet")
+	vAssert(len(q2.pageState) == 0 && !q2.disableAutoPage && q2.pageSize == 100 && q2.conn == nil && q2.stmt == "B" && len(q2.values) == 0, "C15/defaults/fresh-query-starts-at-the-first-page-with-session-options")
+	b := s.NewBatch(LoggedBatch)
+	vAssert(b.IsIdempotent() && len(b.Entries) == 0 && b.speculativeExecutionPolicy().Attempts() == 0 && b.retryPolicy() == sessionRT && b.Attempts() == 0, "C13/defaults/batch")
+	vObserve("idem", q2.IsIdempotent())
+}
